@@ -7,6 +7,8 @@ import (
 	"encoding/json"
 	"fmt"
 	"strings"
+
+	te "github.com/ricochet1k/termemu"
 )
 
 // Item is one element of a case: a piece of input (with a class label used
@@ -200,9 +202,16 @@ func runCase(c *Case, d *driver, opts runOpts) (res caseResult) {
 	snapCheck("init", len(im.fe.events), len(im.be.written))
 
 	rng := newPrng(uint64(c.Chunk)*7919 + 17)
+	prevSnap := im.vt.Snap()
+	var stepBytes []byte
 	compare := func(cmd string, tags *string) bool {
 		evFrom, wrFrom := im.evMark, im.wrMark
-		io, _ := im.observe(false)
+		pre := prevSnap
+		io, post := im.observe(false)
+		prevSnap = post
+		defer func() {
+			knownFindingMonitors(&pre, &post, im, evFrom, step, *tags, stepBytes, &res.Findings)
+		}()
 		if useModel {
 			mo, err := d.cmdBlock(cmd)
 			if err != nil {
@@ -224,6 +233,10 @@ func runCase(c *Case, d *driver, opts runOpts) (res caseResult) {
 					// characters inserted after a wide character; the case ends here
 					res.Sanctioned = true
 					res.Cut = true
+					for _, pr := range []string{"C03", "C08"} {
+						addF(finding{Step: step, Kind: "monitor", Prop: pr, Clause: "keep-wide-run", Tags: *tags,
+							Detail: "a run of several characters written onto the second cell of a wide character (span buffer): the run is inserted after the character as a whole, so its last character may be cut instead of wrapping/pinning, and the outcome depends on how the run was cut into reads"})
+					}
 					return false
 				}
 				addF(finding{Step: step, Kind: "diverge", Clause: strings.Join(projs, ""), Tags: *tags, Detail: describeDiff(io, mo, projs)})
@@ -271,6 +284,7 @@ func runCase(c *Case, d *driver, opts runOpts) (res caseResult) {
 			if useModel && len(data) > 0 {
 				_ = d.send("feed " + hex.EncodeToString(data))
 			}
+			groupStart := im.be.delivered - im.vt.Buffered()
 			budget := len(data) + 8
 			for !res.Cut {
 				step++
@@ -280,7 +294,13 @@ func runCase(c *Case, d *driver, opts runOpts) (res caseResult) {
 					res.Cut = true
 					break
 				}
+				c0 := im.consumed()
 				err, pan := im.vt.Step()
+				if a, b := c0-groupStart, im.consumed()-groupStart; a >= 0 && b <= len(data) && a <= b {
+					stepBytes = data[a:b]
+				} else {
+					stepBytes = nil
+				}
 				if pan != "" {
 					addF(finding{Step: step, Kind: "panic", Prop: "C01", Clause: "step", Tags: peekTags(data, im), Detail: pan})
 					res.Cut = true
@@ -318,6 +338,43 @@ func runCase(c *Case, d *driver, opts runOpts) (res caseResult) {
 		}
 	}
 	return
+}
+
+// knownFindingMonitors detects the situations of recorded known findings on the implementation
+// (so that they are reported on every run and anything else is still an alarm).
+func knownFindingMonitors(pre, post *te.VerifSnap, im *impl, evFrom int, step int, tags string, stepBytes []byte, out *[]finding) {
+	// C10: rows scrolled off the top of the main screen must be announced through ScrollLines
+	if !pre.OnAlt && !post.OnAlt && len(pre.Screens[0].Rows) == len(post.Screens[0].Rows) && pre.Screens[0].H > 1 {
+		s := &pre.Screens[0]
+		scrolledOff := false
+		switch tags {
+		case "c10", "c12", "e68": // LF, FF, IND on the bottom margin of a region that starts at row 0
+			scrolledOff = s.Top == 0 && s.CY == s.Bot && s.Bot > 0
+		}
+		if strings.HasPrefix(tags, "[0.83") && s.Top == 0 && s.Bot > 0 { // SU n, n > 0
+			scrolledOff = rowString(cellsOfVerif(pre.Screens[0].Rows[0].Cells)) != rowString(cellsOfVerif(post.Screens[0].Rows[0].Cells)) ||
+				rowString(cellsOfVerif(pre.Screens[0].Rows[1].Cells)) != rowString(cellsOfVerif(post.Screens[0].Rows[1].Cells))
+		}
+		if scrolledOff {
+			announced := false
+			for _, e := range im.fe.events[evFrom:] {
+				if e.kind == "l" {
+					announced = true
+				}
+			}
+			if !announced {
+				*out = append(*out, finding{Step: step, Kind: "monitor", Prop: "C10", Clause: "scroll-lines", Tags: tags,
+					Detail: "a row of the main screen scrolled off the top without a ScrollLines notification"})
+			}
+		}
+	}
+	// C07: an SGR sequence with more parameters than the parser stores
+	if strings.HasPrefix(tags, "[0.109") && len(stepBytes) > 0 && stepBytes[len(stepBytes)-1] == 'm' {
+		if n := strings.Count(string(stepBytes), ";") + 1; n > 32 {
+			*out = append(*out, finding{Step: step, Kind: "monitor", Prop: "C07", Clause: "sgr-param-cap", Tags: tags,
+				Detail: fmt.Sprintf("SGR sequence with %d parameters: only the first 32 are applied", n)})
+		}
+	}
 }
 
 func snapCheckSafe(im *impl, step int, tags string, evFrom, wrFrom int, out *[]finding) {
